@@ -328,6 +328,14 @@ fn open_index(config: &crate::config::Config) -> Result<(bool, Index)> {
 
     #[cfg(feature = "verif")]
     crate::verif::point("index.before_remove", "", 0, 0)?;
+    // The index is about to be recreated from scratch. Make sure that existing
+    // metadata cannot vouch for it if we are interrupted before it has been
+    // completely rebuilt and committed; the metadata is written again after the
+    // commit.
+    if config.meta_path.is_file() {
+        fs::remove_file(&config.meta_path)?;
+    }
+
     if config.index_path.is_dir() {
         log::info!("removing index: {}", config.index_path.display());
         fs::remove_dir_all(&config.index_path)?;
